@@ -8,6 +8,7 @@ pub mod props;
 pub mod refmodel;
 pub mod scratch;
 pub mod targets;
+pub mod tzfiles;
 pub mod zones;
 
 use engine::{Opts, Tier};
